@@ -1,4 +1,4 @@
-\* liveness on a small fair configuration: 2 nodes, 2 entries, <=2 leadership changes, 1 outage, 1 restart
+\* liveness on a small fair configuration: 2 nodes, 2 entries, <=3 leadership signals, 1 outage, no restart
 SPECIFICATION LiveSpec
 CONSTANTS
   Node = {n1, n2}
@@ -7,10 +7,11 @@ CONSTANTS
   BatchSz = 2
   InCap = 0
   AsyncHWM = FALSE
-  MaxFlips = 2
+  SigCap = 2
+  MaxFlips = 3
   MaxLeaders = 1
-  MaxRestarts = 1
-  MaxSnaps = 1
+  MaxRestarts = 0
+  MaxSnaps = 0
   MaxDowns = 1
   OneGroupPerEntry = TRUE
   LabelEveryGroup = TRUE
@@ -20,6 +21,7 @@ CONSTANTS
   HWMAfterSendOK = TRUE
   PruneToHWMOnly = TRUE
   RewindCursor = TRUE
+  ParkedKeptUntilSent = TRUE
   RestartHWMBelowLowest = TRUE
   DropReapplied = TRUE
 PROPERTIES Live
